@@ -10,6 +10,9 @@ SEVM.create_branch, SEVM.run_message, SEVM.call (sub_ex) and SEVM.create (sub_ex
   deep     `deepcopy(<attr>)`
   fresh    anything else (a constructor call, a literal, a local that is not an attribute of the source state)
 
+The state backups of `call` / `create` (`orig_storage = deepcopy(ex.storage)` …) and the failure-branch restores of their
+callbacks (`new_ex.storage = deepcopy(orig_storage)` …, run once per callee path from that single backup) are extracted as
+`backupSites` / `failureRestores`.
 The callbacks of the two sub_ex sites restore `context`, `st`, `jumpis` from the captured parent: the assignments
 `new_ex.<f> = …` inside `callback` are extracted as well (sites `call.callback`, `create.callback`).
 Fail closed: an Exec site that cannot be found, or an unexpected number of sites, raises.
@@ -85,6 +88,53 @@ def callback_table(fn, sources):
     return out
 
 
+BACKUPS = {"orig_code": "code", "orig_storage": "storage", "orig_transient_storage": "transient_storage", "orig_balance": "balance"}
+
+
+def classify_backup(expr) -> str:
+    """right-hand side built from one of the per-CALL backup objects `orig_*` (a local captured by the callback closure)"""
+    if isinstance(expr, ast.Name) and expr.id in BACKUPS:
+        return "byRef"
+    if isinstance(expr, ast.Call):
+        f = expr.func
+        if isinstance(f, ast.Name) and f.id == "deepcopy" and len(expr.args) == 1 and isinstance(expr.args[0], ast.Name) \
+                and expr.args[0].id in BACKUPS:
+            return "deep"
+        if isinstance(f, ast.Name) and f.id == "copy" and len(expr.args) == 1 and isinstance(expr.args[0], ast.Name) \
+                and expr.args[0].id in BACKUPS:
+            return "shallow"
+        if isinstance(f, ast.Attribute) and f.attr == "copy" and not expr.args and isinstance(f.value, ast.Name) \
+                and f.value.id in BACKUPS:
+            return "shallow"
+    return "fresh"
+
+
+def backup_table(fn):
+    """the backups taken once per CALL / CREATE: `orig_<f> = <expr over ex.<f>>` (statements of fn or of its nested call_known)"""
+    out = {}
+    for n in ast.walk(fn):
+        if isinstance(n, ast.Assign) and len(n.targets) == 1 and isinstance(n.targets[0], ast.Name) and n.targets[0].id in BACKUPS:
+            out[BACKUPS[n.targets[0].id]] = classify(n.value, {"ex"})
+    return [(f, out[f]) for f in ("code", "storage", "transient_storage", "balance") if f in out]
+
+
+def failure_restore_table(fn):
+    """`new_ex.<f> = <expr over orig_*>` inside the callback (the branch taken when the callee / creation failed); the callback
+    runs once per callee path, so each run needs its own copy of what execution mutates in place"""
+    cbs = [n for n in ast.walk(fn) if isinstance(n, ast.FunctionDef) and n.name == "callback"]
+    if len(cbs) != 1:
+        raise Bad(f"{fn.name}: {len(cbs)} callbacks")
+    out = []
+    for n in ast.walk(cbs[0]):
+        if isinstance(n, ast.Assign) and len(n.targets) == 1:
+            t = n.targets[0]
+            if isinstance(t, ast.Attribute) and isinstance(t.value, ast.Name) and t.value.id == "new_ex" and t.attr in BACKUPS.values():
+                uses = [x.id for x in ast.walk(n.value) if isinstance(x, ast.Name) and x.id in BACKUPS]
+                if uses:
+                    out.append((t.attr, classify_backup(n.value)))
+    return out
+
+
 def assign_table(fn, target_name, sources):
     out = []
     for st in fn.body:
@@ -126,6 +176,11 @@ def main():
         ("branch", assign_table(branch, "path", {"self"})),
         ("extend_path", assign_table(extend_path, "self", {"path"})),
     ]
+    backups = [("call.backup", backup_table(call)), ("create.backup", backup_table(create))]
+    failures = [("call.callback.failure", failure_restore_table(call)), ("create.callback.failure", failure_restore_table(create))]
+    for nm, rows in backups + failures:
+        if [f for f, _ in rows] != ["code", "storage", "transient_storage", "balance"]:
+            raise Bad(f"{nm}: expected code/storage/transient_storage/balance, found {[f for f, _ in rows]}")
     for nm, rows in forks + conts:
         if len(rows) < 15:
             raise Bad(f"{nm}: only {len(rows)} keyword arguments")
@@ -143,6 +198,10 @@ def main():
         + lean_table("contSites", conts) + "\n"
         + "/-- unconditional `new_ex.<f> = …` restores at the top of the two callbacks -/\n"
         + lean_table("callbackRestores", callbacks) + "\n"
+        + "/-- the per-CALL / per-CREATE backups `orig_<f> = …` taken from the caller state before the sub-execution starts -/\n"
+        + lean_table("backupSites", backups) + "\n"
+        + "/-- `new_ex.<f> = … orig_<f> …` when the callee / creation failed: executed once per callee path, from the one backup -/\n"
+        + lean_table("failureRestores", failures) + "\n"
         + "/-- `Path.branch` (new path from self) and `Path.extend_path` (self from path) -/\n"
         + lean_table("pathSites", paths) + "\n"
         + "end HalmosVerif.Gen.CopyTable\n"
